@@ -84,10 +84,27 @@ GlobCmd(ed, sd, t, j) ==
     ELSE [k |-> "g", loc |-> <<>>, re |-> Elem(sd, t, j + 1, PatPool),
           cmds |-> <<[k |-> "s", loc |-> <<>>, re |-> <<97>>, rep |-> <<88>>, g |-> FALSE]>>]
 
+(* files the harness puts into the working directory of every run: name -> <<lines>>, <<>> for a name without file *)
+FilePool == << [name |-> <<102, 49>>, file |-> << << <<114, 49>>, <<233, 32, 114, 50>>, <<>> >> >>],      \* f1: "r1", "e' r2", ""
+               [name |-> <<102, 48>>, file |-> << <<>> >>],                                              \* f0: empty
+               [name |-> <<110, 102>>, file |-> <<>>] >>                                                \* nf: missing
+(* command lines kept in register m (no other command of the scripts writes it) and run by @m *)
+MacroPool == << <<[k |-> "d", loc |-> <<>>, reg |-> 0]>>,
+                <<[k |-> "s", loc |-> <<>>, re |-> <<97>>, rep |-> <<88>>, g |-> TRUE], [k |-> "p", loc |-> <<>>]>>,
+                <<[k |-> "pu", loc |-> <<>>, reg |-> 97]>>,
+                <<[k |-> "d", loc |-> RelLoc(1), reg |-> 98], [k |-> "p", loc |-> RelLoc(-1)]>>,
+                <<[k |-> "y", loc |-> <<>>, reg |-> 97], [k |-> "pu", loc |-> <<>>, reg |-> 97], [k |-> "k", loc |-> <<>>, m |-> 98]>>,
+                <<[k |-> "g", loc |-> <<>>, re |-> <<97>>, cmds |-> <<[k |-> "d", loc |-> <<>>, reg |-> 0]>>]>> >>
+(* a macro is stored one command per line *)
+MacroText(cs) == [i \in 1..Len(cs) |-> CmdStr(cs[i])]
+MacroOf(ed) == LET g == RegGet(ed.regs, 109)
+                   hit == {i \in 1..Len(MacroPool) : g.has /\ g.s = JoinLines(MacroText(MacroPool[i]))}
+               IN IF hit = {} THEN 0 ELSE CHOOSE i \in hit : TRUE
+
 GenCmd(ed, sd, t, j) ==
     LET wl == IF Profile = "sub" THEN 0 ELSE IF Profile = "glob" THEN 1 ELSE 2
         k  == Pick(sd, t, j, 100)
-        kind == IF NLines(ed) = 0 /\ k < 70 THEN "a"
+        kind0 == IF NLines(ed) = 0 /\ k < 70 THEN "a"
                 ELSE IF wl = 0 /\ k < 55 THEN "s"
                 ELSE IF wl = 1 /\ k < 45 THEN (IF k < 36 THEN "g" ELSE "v")
                 ELSE LET q0 == Pick(sd, t, j + 1, 100)
@@ -100,6 +117,10 @@ GenCmd(ed, sd, t, j) ==
                      ELSE IF q < 66 THEN "k" ELSE IF q < 74 THEN "s" ELSE IF q < 80 THEN "g" ELSE IF q < 82 THEN "v"
                      ELSE IF q < 89 THEN "u" ELSE IF q < 93 THEN "redo" ELSE IF q < 96 THEN "null"
                      ELSE IF q < 98 THEN "rs" ELSE "se"
+        (* the lines profile also reads files, filters ranges and runs the macro register *)
+        x == Pick(sd, t, j + 5, 100)
+        kind == IF wl # 2 \/ kind0 \in {"u", "redo"} \/ NLines(ed) = 0 THEN kind0
+                ELSE IF x < 5 THEN "r" ELSE IF x < 9 THEN "!" ELSE IF x < 12 THEN "defm" ELSE IF x < 17 /\ MacroOf(ed) > 0 THEN "@" ELSE kind0
         loc0 == GenLoc(ed, sd, t, j + 2)
         (* an empty prompt line does nothing at all: the bare-address command needs an address *)
         loc == IF kind = "null" /\ loc0 = <<>> THEN <<[a |-> [b |-> "dot", n |-> 0, m |-> 0, re |-> <<>>, offs |-> <<1>>], sep |-> ""]>>
@@ -118,14 +139,19 @@ GenCmd(ed, sd, t, j) ==
                                                 (* a nested global takes the rest of the line: only in last place *)
                                                 IF gc.k = "g" /\ i < nc THEN [k |-> "d", loc |-> <<>>, reg |-> 0] ELSE gc]]
          [] kind = "rs" -> [k |-> "rs", reg |-> 97, txt |-> GenText(sd, t, j + 12)]
+         [] kind = "defm" -> [k |-> "rs", reg |-> 109, txt |-> MacroText(Elem(sd, t, j + 12, MacroPool))]
+         [] kind = "r" -> LET f == Elem(sd, t, j + 12, FilePool) IN [k |-> "r", loc |-> loc, name |-> f.name, file |-> f.file]
+         [] kind = "!" -> [k |-> "!", loc |-> IF loc = <<>> THEN <<[a |-> [b |-> "dot", n |-> 0, m |-> 0, re |-> <<>>, offs |-> <<>>], sep |-> ""]>> ELSE loc]
+         [] kind = "@" -> [k |-> "@", loc |-> loc, reg |-> 109, cmds |-> MacroPool[MacroOf(ed)]]
          [] kind = "se" -> [k |-> "se", val |-> Pick(sd, t, j + 12, 2) = 0]
          [] OTHER -> [k |-> kind]
 
 (* a prompt line: usually one command, sometimes two separated by "|" (a global must come last) *)
 GenLineCmds(ed, sd, t) ==
     LET c1 == GenCmd(ed, sd, t, 0) IN
-    IF Pick(sd, t, 50, 8) = 0 /\ c1.k \notin {"g", "v", "null", "rs"}     \* "rs" takes the rest of its line as text
-    THEN LET c2 == GenCmd(ed, sd, t, 60) IN IF c2.k = "null" THEN <<c1>> ELSE <<c1, c2>>
+    (* "rs" and "!" take the rest of their line; the commands of @ are a command line of their own (own undo step) *)
+    IF Pick(sd, t, 50, 8) = 0 /\ c1.k \notin {"g", "v", "null", "rs", "!", "@"}
+    THEN LET c2 == GenCmd(ed, sd, t, 60) IN IF c2.k \in {"null", "@"} THEN <<c1>> ELSE <<c1, c2>>
     ELSE <<c1>>
 
 (* what is compared with the implementation after every prompt line *)
@@ -153,7 +179,7 @@ RECURSIVE CmdWB(_)
 CmdWB(c) == \/ ("re" \in DOMAIN c /\ HasWB(c.re))
             \/ ("cmds" \in DOMAIN c /\ \E i \in 1..Len(c.cmds) : CmdWB(c.cmds[i]))
             \/ ("loc" \in DOMAIN c /\ \E i \in 1..Len(c.loc) : HasWB(c.loc[i].a.re))
-RegNames == {0, 97, 98} \cup 49..57
+RegNames == {0, 97, 98, 109} \cup 49..57
 RECURSIVE Script(_, _, _, _)
 Script(ed, sd, t, n) ==
     IF t > n THEN <<>>
